@@ -175,6 +175,8 @@ def _check_main(run, P):
     run.do(_kwpair, run, P)
     run.do(_append_only, run, P)
     run.do(carry, run, P, "C07.carry")
+    from . import c06 as _c06
+    run.do(_c06.simplify_callers, run, P, "C07.guard")
 
 
 def carry(run, P, rule):
@@ -784,6 +786,39 @@ def _selfdep(run, P):
            construct="copy-in statements are appended before the rewritten statement, "
                      "which depends on them",
            why="the rewritten statement reads the copies")
+    selfdep_total(run, P, "C07.selfdep")
+
+
+def selfdep_total(run, P, rule):
+    """The statement is handed back unchanged only when no variable is both read
+    and written - whatever else holds (the Fortran move of a user type releases
+    the assignee before it takes the source: the two must never be the same)."""
+    from .util import path_conditions
+    f = P.func(f"{MOD}.SelfDependencyEliminator.map_statement")
+    stmt = f.params[1]
+    # the set of names both read and written
+    both = [s_.targets[0].id for s_ in ast.walk(f.node) if isinstance(s_, ast.Assign)
+            and len(s_.targets) == 1 and isinstance(s_.targets[0], ast.Name)
+            and isinstance(s_.value, ast.BinOp) and isinstance(s_.value.op, ast.BitAnd)
+            and "get_read_variables" in ast.unparse(s_.value)
+            and "get_written_variables" in ast.unparse(s_.value)]
+    if len(both) != 1:
+        raise AnalysisError("SelfDependencyEliminator: the read-and-written set not found")
+    rw = both[0]
+    rets = [r for r in ast.walk(f.node) if isinstance(r, ast.Return)
+            and isinstance(r.value, (ast.List, ast.Tuple)) and len(r.value.elts) == 1
+            and dotted(r.value.elts[0]) == stmt]
+    if not rets:
+        raise AnalysisError("SelfDependencyEliminator: no return of the unchanged statement")
+    for r in rets:
+        conds = path_conditions(f.node, r)
+        ok = (rw, False) in conds or (f"len({rw})", False) in conds or (f"len({rw}) == 0", True) in conds
+        run.ob(rule, f, r, ok,
+               construct=f"'{norm(r)}' (statement unchanged) only when '{rw}' is empty",
+               why="a statement that reads what it assigns and is let through keeps its "
+                   "self-dependency: for a user type the generated move releases x and then "
+                   "takes x => x from the storage just freed (x <- x, x <- 1*x + 0*k after "
+                   "flattening)")
 
 
 def coverage(run, P, rule, include_written=True):
@@ -849,12 +884,28 @@ def _append_only(run, P):
     n = 0
     for cname in sorted(m.classes):
         c = m.classes[cname]
-        f = c.methods.get("map_statement")
-        if f is None or f.cls is not c:
-            continue
-        lists = stmt_list_names(f) - {"self.new_statements"}
-        if not lists:
-            continue
+        for mname in ("map_statement", "map_StatementWrapper"):
+            f = c.methods.get(mname)
+            if f is None or f.cls is not c:
+                continue
+            if mname == "map_statement":
+                lists = stmt_list_names(f) - {"self.new_statements"}
+            else:
+                lists = {t.id for s_ in ast.walk(f.node) if isinstance(s_, ast.Assign)
+                         and isinstance(s_.value, (ast.List, ast.ListComp))
+                         for t in s_.targets if isinstance(t, ast.Name)}
+            if not lists:
+                continue
+            _grow_one(run, cname, mname, f, lists)
+            n += 1
+    if n == 0:
+        raise AnalysisError("C07.grow: no statement-level rewriter found")
+
+
+def _grow_one(run, cname, mname, f, lists):
+    if True:
+        if True:
+            pass
         bad = []
         for x in ast.walk(f.node):
             if isinstance(x, (ast.Assign, ast.Delete, ast.AugAssign)):
@@ -866,15 +917,13 @@ def _append_only(run, P):
                     and dotted(x.func.value) in lists \
                     and x.func.attr in ("pop", "remove", "insert", "clear", "reverse", "sort"):
                 bad.append(x)
-        n += 1
         run.ob("C07.grow", f, bad[0] if bad else f.node, not bad,
-               construct=f"{cname}.map_statement: {sorted(lists)} only grows by append"
+               construct=f"{cname}.{mname}: {sorted(lists)} only grows by append"
                          + (f" (found {norm(bad[0], 60)})" if bad else ""),
                why="fusing or replacing statements after the fact re-derives a statement "
                    "from pieces (the assignee name without its subscript, say): 'a[i] <- f(x)' "
-                   "comes back as 'a <- f(x)'")
-    if n == 0:
-        raise AnalysisError("C07.grow: no statement-level rewriter found")
+                   "comes back as 'a <- f(x)'; two guarded nodes fused into one if/else run "
+                   "the else part when the common prefix of the guards is false")
 
 
 def _flat_and(run, P):
